@@ -12,6 +12,15 @@ CLAIMED = {
  "C03": ("§7 C03", "kernel-decided equality of the table translated from the source with the frozen specification table (55 structs, 17 enums) + reference-encoded packets decoded/re-encoded by the Rust code",
          "Lean: `Generated.shipped = Spec.shipped` (every control field; every field's position, name, tag number, length style, encoding, type) and the same for reply enums, decided in the kernel on every run against the freshly translated table, via a Boolean structural equality proved sound. Both directions on bytes: an independent python reference encoder interprets the frozen table; the Rust code must decode those bytes into exactly the named fields and re-encode them identically (all 55 types, canonical domain, APDU 253..257/65535 bodies).",
          "Trusted: Lean kernel, the translator (cross-checked: a mistranslation makes model and Rust disagree), the frozen specification table (hand-reviewed, see DESIGN 5.4), the python reference encoder, Debug-output parser. The generic theorem `impl encode = reference encode` is not yet proved in Lean (C01 work in progress); the byte-level agreement is differential."),
+ "C04": ("§7 C04", "Lean 4 theorems: read_exact over chunks depends only on the concatenation; writer/reader header agreement and exact framing for every body length; truncated packet => EOF; packet-by-packet induction step + differential correspondence over chunkings",
+         "Proved for all streams and all chunkings: `readExact_chunking` (result = first n bytes of the concatenation, rest preserved, failure iff too short), `readFrame_exact` (for every body length 0..65535 the prefix Adpu::serialize writes is framed by the reader as exactly that packet, 3-byte header below 255 and 5-byte from 255), `truncated_is_eof`, `readPackets_step`. Correspondence: real read_packet over an AsyncRead that returns Pending between chunks: every end position x every chunking of short streams, extended-header packets cut at every header position, header agreement for 600+ lengths (thorough: all 65536).",
+         "Partial w.r.t. the executor: waker/Pending handling of tokio's read_exact is exercised by the harness, not modelled. Trusted: Lean kernel, hand model of io.rs validated by differential execution, tokio."),
+ "C05": ("§7 C05", "Lean 4 theorem giving the exact event trace of every loop sequence on every well-formed script (any number of non-final replies, final reply, arbitrary junk behind it) + kernel-decided coverage of the translated sequence table + differential correspondence of ordered event logs",
+         "Proved for every reply enum, final set, command and script `ack, p1..pk (non-final, decodable), f (final) ++ junk`: trace = write cmd, read ack, (read p_i, write 80 00 00, yield p_i)*, read f, write 80 00 00, yield f, end — each packet answered exactly once before it is yielded and before the next read, arrival order, stop at the first final packet, zero bytes of junk read. The final sets and kinds (once/loop) are re-extracted from the into_stream bodies on every run (translator recognises the loop shape token by token) and `decide`d to be covered. Correspondence: real into_stream of all 17 sequences against a scripted in-memory terminal, scripts bounded-exhaustive to depth 3 (thorough 5).",
+         "Trusted: Lean kernel, translator (sequence shapes), hand model of the scripted terminal and of the loop body validated by differential execution, tokio duplex. WriteFile is covered under C11."),
+ "C06": ("§7 C06", "Lean 4 shape theorem for EVERY reply script (no well-formedness assumption): rounds then exactly one closing; at most one error, no write after it, an uninterpretable packet is never acknowledged; Ack parser accepts only 80 00 + fault-injection correspondence",
+         "Proved for every enum, final set, command and arbitrary script: the trace is `write cmd` then either a failed acknowledgement phase (one error, nothing written) or `read ack`, complete rounds, and one closing among {end after a yield, [read] error end, hang}; hence countErr <= 1 and writesAfterFirstErr = 0 (`one_error_then_silence`); `ack_only_8000`. Correspondence: all 17 sequences x valid prefixes x {NACK, foreign control field, undecodable body, truncated packet, EOF} instead of the ack and at every later position.",
+         "Trusted: Lean kernel, translator, hand model validated by differential execution. `hang` (silence on an open connection) is bounded by the caller's time-out: C10."),
  "C14": ("§7 C14", "Lean 4 theorems: suffix-independence of every delimiting length style, of the generic tag/length/data triple, of every command decoder and nested container, for arbitrary (not only canonical) inputs + differential correspondence with suffixes",
          "Proved for all inputs, all schemas: if a packet (APDU) or a field under fixed/LLVAR/LLLVAR/BER-TLV length decodes, then with any bytes appended it decodes to the same value and the remainder is the old remainder followed by exactly those bytes (`cmd_suffix`, `field_suffix`, `deserTagged_append`, `lenDe_append`). Correspondence: canonical packets of all command types x suffixes (all 256 single bytes, valid packets, random) and junk spliced into the body behind the last container.",
          "Trusted: Lean kernel, hand model of lib.rs/length.rs/derive validated by differential execution, harness."),
